@@ -199,6 +199,15 @@ func globSteps(x *Ctx, f *ssa.Function) {
 			badRet += "a return from inside the scanning loop that is not `no step applies and no star is remembered -> false`:\n" + p.String() + "\n"
 		}
 	}
+	// no answer is given without scanning: a shortcut ahead of the loop (prefix / suffix tests for "simple"
+	// patterns, say) decides matches by other rules than the matcher's
+	nBypass := 0
+	for _, p := range ps {
+		if p.End == paths.EndReturn && !p.InBlock(l.Header) {
+			nBypass++
+		}
+	}
+	x.C.Obl("C13.R1", "no-bypass:"+load.ShortName(f), x.pos(f), "every answer of Match is given by the scanning loop and the tail check after it", nBypass == 0, fmt.Sprintf("%d returning path(s) do not pass through the scanning loop", nBypass))
 	x.C.Obl("C13.R1", "in-loop-exit:"+load.ShortName(f), x.pos(f), "the scanning loop is left early only with false, when no step applies and no '*' is remembered", badRet == "" && nRet >= 1, badRet)
 	for _, k := range []string{"literal-step", "escape-step", "star-step", "backtrack-step"} {
 		x.C.Obl("C13.R1", "has-"+k+":"+load.ShortName(f), x.pos(f), "the matcher has a "+k, counts[k] > 0, fmt.Sprintf("step kinds found: %v", counts))
